@@ -75,12 +75,145 @@ def gen_params(rng, kind, regular=False):
     raise ValueError(kind)
 
 
-def gen_law_case(rng, kind, mode="plain"):
+# --------------------------------------------------------------------------- boundary-value stratum
+# Special values that implementation shortcuts (truthiness tests, `x or default`, int/float dispatch, sign handling)
+# tend to mishandle: exact zeros of both signs, exact one, integer-valued floats and Python ints.
+SPECIAL_LOCATIONS = [0.0, -0.0, 0, 1.0, 1, -1.0, -1, 2, -3.0, 10.0]
+SPECIAL_SCALES = [1.0, 1, 2.0, 2, 0.5]
+SPECIAL_SHAPES = [1.0, 1, 2.0, 2, 3]
+SPECIAL_BOUNDS = [0.0, -0.0, 0, 0.0, 1.0, 1, -1.0]
+P_BOUNDARY = 0.35
+
+LOC_KEYS = {"uniform": ["minimum", "maximum"], "normal": ["mu"], "lognormal": ["location"],
+            "triangular": ["minimum", "mode", "maximum"], "exponential": ["loc"], "weibull": ["location"],
+            "beta": ["minimum", "maximum"], "gamma": ["loc"], "gumbel": ["loc"], "logistic": ["mu"], "laplace": ["mu"],
+            "rayleigh": ["loc"], "dirac": ["variable_value"]}
+SCALE_KEYS = {"normal": "sigma", "exponential": "rate", "weibull": "scale", "gamma": "rate", "gumbel": "scale",
+              "logistic": "scale", "laplace": "scale", "rayleigh": "scale"}
+SHAPE_KEYS = {"beta": ["alpha", "beta"], "gamma": ["k"], "weibull": ["shape"]}
+
+
+def _pick(rng, values):
+    return values[int(rng.integers(len(values)))]
+
+
+def loc_keys(fam, params):
+    keys = list(LOC_KEYS[fam])
+    if fam == "lognormal" and not params.get("set_log", False):
+        keys.append("mu")  # the mean of the variable moves with its location
+    return keys
+
+
+def shift_location(fam, params, delta):
+    """Translate the law by ``delta`` (every location-like argument moves together)."""
+    for k in loc_keys(fam, params):
+        params[k] = float(params[k]) + float(delta)
+
+
+def boundarize(rng, fam, params, regular=False):
+    """Move parameters onto special values (in place); returns the list of tags of what was done."""
+    tags = []
+    keys = loc_keys(fam, params)
+    if rng.random() < 0.8:
+        s = _pick(rng, SPECIAL_LOCATIONS)
+        first = keys[0]
+        old = {k: params[k] for k in keys}
+        for k in keys[1:]:
+            off = float(old[k]) - float(old[first])
+            if isinstance(s, int) and rng.random() < 0.7:
+                off = max(1, int(round(off))) if off > 0 else 0   # keep Python ints all the way (width >= 1)
+            params[k] = s + off
+        params[first] = s
+        if fam == "triangular":
+            # keep minimum <= mode <= maximum after the integer rounding of the offsets
+            params["maximum"] = max(params["maximum"], params["mode"])
+            if params["maximum"] == params["minimum"]:
+                params["maximum"] = params["minimum"] + 1
+        tags.append("location")
+        if isinstance(s, int):
+            tags.append("int")
+        if s == 0:
+            tags.append("zero")
+    if fam in ("uniform", "beta", "triangular") and rng.random() < 0.5:
+        lo, w = params["minimum"], _pick(rng, [1.0, 1, 2, 2.0])
+        if fam == "triangular":
+            frac = _pick(rng, [0.0, 0.5, 1.0])
+            params["mode"] = lo + w * frac if frac not in (0.0, 1.0) else (lo if frac == 0.0 else lo + w)
+        params["maximum"] = lo + w
+        tags.append("width")
+    if fam in SCALE_KEYS and rng.random() < 0.5:
+        params[SCALE_KEYS[fam]] = _pick(rng, SPECIAL_SCALES)
+        tags.append("scale")
+    if fam in SHAPE_KEYS and rng.random() < 0.5:
+        for k in SHAPE_KEYS[fam]:
+            v = _pick(rng, SPECIAL_SHAPES)
+            params[k] = max(v, 2) if regular else v
+        tags.append("shape")
+    if fam == "lognormal" and rng.random() < 0.5:
+        if params.get("set_log", False):
+            params["mu"], params["sigma"] = _pick(rng, [0.0, 0, 1.0, 1, -0.0]), _pick(rng, [1.0, 1, 0.5])
+        else:
+            params["mu"], params["sigma"] = params["location"] + _pick(rng, [1, 2, 1.0, 3.0]), _pick(rng, [1.0, 1, 0.5, 2])
+        tags.append("lognormal-moments")
+    for v in params.values():
+        if isinstance(v, int) and not isinstance(v, bool) and "int" not in tags:
+            tags.append("int")
+    return tags
+
+
+
+def _boundary_truncation(rng, desc, mode):
+    """Put ONE truncation bound on a special value (exact 0.0 / -0.0 / 0 / 1.0 / 1 / -1.0, or the law's own mean /
+    median / mode), translating the law so that the value is interior; the other bound (if any) stays ordinary."""
+    fam = desc["family"]
+    tr = desc.get("transform")
+    desc["trunc"] = None
+    law0 = laws.build(desc)
+    r = rng.random()
+    if r < 0.75 and not (tr and tr[0] == "exp"):
+        v = _pick(rng, SPECIAL_BOUNDS)
+        q = float(law0.ppf(float(rng.uniform(0.15, 0.85))))
+        delta = float(v) - q
+        shift_location(fam, desc["params"], delta / float(tr[1]) if tr else delta)
+        desc["boundary"] = [t for t in desc["boundary"] if t not in ("location", "int", "zero", "width")]
+        tag = "trunc-zero" if v == 0 else "trunc-special"
+    elif r < 0.9 and fam == "triangular" and not (tr and tr[0] == "exp"):
+        m = desc["params"]["mode"]
+        v = float(tr[1]) * float(m) + float(tr[2]) if tr else m
+        tag = "trunc-mode"
+    else:
+        v = law0.mean() if (law0.mean() is not None and rng.random() < 0.6) else float(law0.ppf(0.5))
+        v = float(v)
+        tag = "trunc-mean-or-median"
+    law0 = laws.build(desc)
+    pv = float(law0.cdf(float(v)))
+    if not 0.05 < pv < 0.95:
+        # not interior enough (e.g. triangular mode on an end point): fall back to ordinary bounds
+        lo, hi = (float(x) for x in law0.ppf(np.array([0.2, 0.8])))
+        desc["trunc"] = [lo if mode != "trunc_hi" else None, hi if mode != "trunc_lo" else None]
+        return
+    if mode == "trunc_lo":
+        desc["trunc"] = [v, None]
+    elif mode == "trunc_hi":
+        desc["trunc"] = [None, v]
+    elif rng.random() < 0.5:
+        desc["trunc"] = [v, float(law0.ppf(pv + (1 - pv) * float(rng.uniform(0.4, 0.95))))]
+    else:
+        desc["trunc"] = [float(law0.ppf(pv * float(rng.uniform(0.05, 0.6)))), v]
+    desc["boundary"].append(tag)
+    if isinstance(v, int):
+        desc["boundary"].append("int")
+
+
+def gen_law_case(rng, kind, mode="plain", boundary=None):
     """mode: plain | generic | one of OT_MODES (OpenTURNS only)."""
     fam = base_family(kind)
     regular = mode in OT_MODES
     desc = {"kind": "law", "family": fam, "params": gen_params(rng, kind, regular), "via": "class",
-            "transform": None, "trunc": None, "mode": mode, "libs": ["SP", "OT"]}
+            "transform": None, "trunc": None, "mode": mode, "libs": ["SP", "OT"], "boundary": []}
+    boundary = bool(rng.random() < P_BOUNDARY) if boundary is None else boundary
+    if boundary and mode != "exp":
+        desc["boundary"] = boundarize(rng, fam, desc["params"], regular)
     if fam in GENERIC_ONLY or mode == "generic":
         desc["via"] = "generic"
     if fam == "dirac":
@@ -98,6 +231,13 @@ def gen_law_case(rng, kind, mode="plain"):
         if mode.startswith("affine"):
             a = float(np.round(rng.choice([-1.0, 1.0]) * np.exp(rng.uniform(-1.5, 1.5)), 3))
             b = float(np.round(rng.uniform(-5, 5), 2))
+            if boundary:
+                if rng.random() < 0.6:
+                    a = _pick(rng, [1.0, 1, -1.0, -1, 2.0, 2])
+                    desc["boundary"].append("slope")
+                if rng.random() < 0.6:
+                    b = _pick(rng, [0.0, 0, -0.0, 1.0, 1, -1])
+                    desc["boundary"].append("offset")
             desc["transform"] = ["affine", a, b]
         if mode in ("trunc2", "trunc_lo", "trunc_hi", "affine+trunc"):
             pl, ph = sorted(rng.uniform(0.02, 0.98, 2).tolist())
@@ -106,6 +246,8 @@ def gen_law_case(rng, kind, mode="plain"):
             law0 = laws.build(desc)  # transformed, not yet truncated
             lo, hi = (float(v) for v in law0.ppf(np.array([pl, ph])))
             desc["trunc"] = [lo if mode != "trunc_hi" else None, hi if mode != "trunc_lo" else None]
+            if boundary:
+                _boundary_truncation(rng, desc, mode)
     return desc
 
 
@@ -121,6 +263,14 @@ def gen_space_case(rng, n_points=4):
         if not is_random:
             r = rng.random()
             if r < 0.7:
+                if rng.random() < P_BOUNDARY:
+                    lbs = [_pick(rng, [0.0, -0.0, 0, -1.0, -1, 1]) for _ in range(size)]
+                    ubs = [l + _pick(rng, [1.0, 1, 2]) for l in lbs]
+                    if rng.random() < 0.3:
+                        lbs, ubs = [-_pick(rng, [1.0, 1, 2]) for _ in range(size)], [_pick(rng, [0.0, -0.0, 0]) for _ in range(size)]   # upper bound exactly zero
+                    variables.append({"name": f"d{i}", "role": "det", "type": "float", "size": size, "lb": lbs, "ub": ubs,
+                                      "scalar": size == 1, "boundary": True})
+                    continue
                 lb = np.round(rng.uniform(-10, 10, size), 2)
                 ub = lb + np.round(np.exp(rng.uniform(-2, 3, size)), 2) + 0.01
                 variables.append({"name": f"d{i}", "role": "det", "type": "float", "size": size,
